@@ -30,6 +30,8 @@ def one(d):
     finally:
         shutil.rmtree(tmp, ignore_errors=True)
 dirs = sorted(glob.glob(os.path.join(V, "seeded", "*")))
+if len(sys.argv) > 1:
+    dirs = [d for d in dirs if os.path.basename(d) in sys.argv[1:]]
 with ThreadPoolExecutor(max_workers=8) as ex:
     for d, res in ex.map(one, dirs):
         meta = json.load(open(os.path.join(d, "meta.json")))
